@@ -185,7 +185,13 @@ def gen_dyn_case(rng):
         k = rng.random()
         e = None if k < 0.12 else t + rng.choice([-1, 0, 0, 1, 60, -60, 86400, -86400, 10 ** 7, -10 ** 7])
         dates.append([a, e])
-    return dict(kind='dyn', dates=dates, t=t)
+    # further queries against the SAME universe object: same day earlier/later, earlier days, exactly at entries
+    more = []
+    for _ in range(rng.randint(0, 5)):
+        e = rng.choice([x for a, x in dates if x is not None] or [t])
+        more.append(rng.choice([e, e - 1, e + 1, t + rng.choice([-3600, 3600, 23 * 3600]), (t // 86400) * 86400 + rng.randrange(0, 86400),
+                                t - 86400, t + 86400]))
+    return dict(kind='dyn', dates=dates, t=t, more=more)
 
 
 def gen_eqw_case(rng):
@@ -279,8 +285,10 @@ def run_dyn(case):
     uni = DynamicUniverse(collections.OrderedDict((a, None if e is None else ts(e)) for a, e in case['dates']))
     got = list(uni.get_assets(ts(case['t'])))
     stat = list(StaticUniverse([a for a, e in case['dates']]).get_assets(ts(case['t'])))
-    ss = SingleSignalAlphaModel(uni, signal=0.75)(ts(case['t']))
-    return dict(assets=got, static=stat, single=[[a, float(w)] for a, w in ss.items()])
+    am = SingleSignalAlphaModel(uni, signal=0.75)
+    ss = am(ts(case['t']))
+    more = [[t, list(uni.get_assets(ts(t))), [a for a in am(ts(t))]] for t in case.get('more', [])]
+    return dict(assets=got, static=stat, single=[[a, float(w)] for a, w in ss.items()], more=more)
 
 
 def run_eqw(case):
@@ -322,10 +330,13 @@ def model_lines(case, real):
                 toks += [a, str(q)]
         return [' '.join(toks)]
     if k == 'dyn':
-        toks = ['dyn', str(case['t']), str(len(case['dates']))]
-        for a, e in case['dates']:
-            toks += [a, '-' if e is None else str(e)]
-        return [' '.join(toks)]
+        lines = []
+        for t in [case['t']] + list(case.get('more', [])):
+            toks = ['dyn', str(t), str(len(case['dates']))]
+            for a, e in case['dates']:
+                toks += [a, '-' if e is None else str(e)]
+            lines.append(' '.join(toks))
+        return lines
     if k == 'eqw':
         toks = ['eqw', str(f2b(case['scale'])), str(len(case['weights']))]
         for a, w in case['weights']:
@@ -403,6 +414,10 @@ def cmp_dyn(case, real, mf, mr, tally, stats):
     tally.discrete += 1
     if real['assets'] != mf[0].get('assets'):
         return [dict(what='DynamicUniverse.get_assets', impl=real['assets'], model=mf[0].get('assets'))]
+    for (t, got, _), m in zip(real.get('more', []), mf[1:]):
+        tally.discrete += 1
+        if got != m.get('assets'):
+            return [dict(what='DynamicUniverse.get_assets queried again at %d on the same object' % t, impl=got, model=m.get('assets'))]
     return []
 
 
@@ -601,6 +616,11 @@ def oracle_c19(case, real):
             out.append(dict(what='static universe returned %r' % real['static'], key='static'))
         if [a for a, w in real['single']] != want or any(w != 0.75 for a, w in real['single']):
             out.append(dict(what='single-signal alpha weights %r for universe %r' % (real['single'], want), key='alpha-keys'))
+        for t, got, akeys in real.get('more', []):
+            w2 = [a for a, e in case['dates'] if e is not None and e <= t]
+            if got != w2 or akeys != w2:
+                out.append(dict(what='universe queried again at %d gives %r (alpha keys %r), entries at or before it: %r' % (t, got, akeys, w2),
+                                key='membership-after-earlier-query'))
     elif case['kind'] == 'eqw':
         n = len(case['weights'])
         if [a for a, w in real['weights']] != [a for a, w in case['weights']]:
